@@ -19,7 +19,7 @@ from .C15 import defgrad
 PROP = "C20"
 
 EVIDENCE = {
-    "probes_expected": ["frames-compared", "early-stop-file-read-back", "roundtrip-compared", "save-compared", "merged-container-read", "custom-data-compared", "fault:h5_create_fail", "fault:disk_full", "second-job-compared", "mesh-object-history"],
+    "probes_expected": ["frames-compared", "early-stop-file-read-back", "roundtrip-compared", "save-compared", "merged-container-read", "custom-data-compared", "fault:h5_create_fail", "fault:disk_full", "second-job-compared", "mesh-object-history", "save-with-gradient"],
     "components": {
         "real": ["felupe (from /repo/src)", "numpy", "scipy incl. SuperLU", "meshio writers/readers", "h5py/HDF5 on a real scratch file"],
         "simulated": ["h5py.File proxy (fails on the n-th create_dataset / on close)", "linear solver fault layer", "job callback and data callables", "clock"],
@@ -580,7 +580,29 @@ def run_save(doc, log):
         try:
             extra_p = rng.normal(size=m.npoints)
             extra_c = rng.normal(size=m.ncells)
-            fem.save(region, field, forces=None if forces is None else forces.copy(), filename=name, point_data={"Temperature": extra_p.copy()}, cell_data={"CellValue": [extra_c.copy()]})
+            pdata = {"Temperature": extra_p.copy()}
+            skw = {}
+            kept = {}
+            if m.dim == 3 and o["values_seed"] % 2 == 0 and o["format"] == "xdmf":  # meshio cannot read 3x3 point tensors back from vtu
+                # stresses handed over as `gradient=`; the caller's own projected tensors (same size as
+                # the Cauchy stress save() projects internally) as additional point data
+                Fq = field.extract()[0]
+                um_ = fem.NeoHooke(mu=1.0, bulk=2.0)
+                Pq = um_.gradient([Fq, None])[0]
+                Cq = np.einsum("ki...,kj...->ij...", Fq, Fq)
+                try:
+                    pdata["Right Cauchy Green"] = fem.topoints(Cq, region)
+                    pdata["Biot Like"] = fem.topoints(0.5 * (Cq - np.eye(3).reshape(3, 3, 1, 1)), region)
+                    sq = np.einsum("ij...,kj...->ik...", Pq, Fq) / np.linalg.det(np.moveaxis(Fq, (0, 1), (-2, -1)))
+                    kept = {k_: np.array(pdata[k_], copy=True) for k_ in ("Right Cauchy Green", "Biot Like")}
+                    kept["Cauchy Stress"] = np.array(fem.topoints(sq, region), copy=True)
+                    skw["gradient"] = [Pq.copy()]
+                    log.count("save-with-gradient")
+                except ValueError:
+                    # topoints does not support this element / quadrature pair
+                    pdata = {"Temperature": extra_p.copy()}
+                    kept = {}
+            fem.save(region, field, forces=None if forces is None else forces.copy(), filename=name, point_data=pdata, cell_data={"CellValue": [extra_c.copy()]}, **skw)
         except meshio.WriteError as e:
             if o["format"] == "vtk" and "spaces in field names" in str(e):
                 raise Discard("format-unsupported")  # legacy VTK cannot carry 'Reaction Force'; nothing is written
@@ -607,6 +629,10 @@ def run_save(doc, log):
         raise Violation(PROP, "save-fidelity", "saved mesh differs", site="save.mesh")
     if not np.array_equal(np.asarray(back.point_data.get("Temperature")).ravel(), extra_p) or not np.array_equal(np.asarray(back.cell_data.get("CellValue")[0]).ravel(), extra_c):
         raise Violation(PROP, "save-fidelity", "additional point / cell data given to save() are not written unchanged", site="save.extra-data")
+    for k_, want in kept.items():
+        got = back.point_data.get(k_)
+        if got is None or not np.allclose(np.asarray(got).reshape(want.shape), want, rtol=1e-12, atol=1e-14):
+            raise Violation(PROP, "save-fidelity", f"point data {k_!r} in the file are not the values {'the caller handed to save()' if k_ != 'Cauchy Stress' else 'of the Cauchy stress projected to the points'}", site=f"save.{'cauchy' if k_ == 'Cauchy Stress' else 'extra-data'}")
     log.count("save-compared")
     return {"signature": f"save|{m.cell_type}|{o['format']}|{forces is not None}", "nontrivial": True}
 
